@@ -5,3 +5,4 @@
   (ite (<= n 0) onil (osnoc (oidv a o (- n 1)) (select a (+ o (- n 1))))))
 (declare-fun bytesv ((Array Int (_ BitVec 8)) Int Int) Bytes)
 (declare-fun deepOf (Any) Deep)
+(define-fun nilSlice () Slice (mkslice 0 0 0 0))
